@@ -7,6 +7,7 @@ CONSTANTS
   MULT <- t_MULT
   BLOCKGAS <- t_BLOCKGAS
   GATEWAY <- t_GATEWAY
+  FIX <- t_FIX
   DEVS <- t_DEVS
 POSTCONDITION Consumed
 CHECK_DEADLOCK FALSE
